@@ -201,6 +201,7 @@ func runModelCheck(c *Ctx, spec modelSpec) *orch.Outcome {
 	o.Extra["blocks_applied_twice_after_a_late_failure"] = orch.SumCounter(rs, "blocks_applied_twice_after_a_late_failure")
 	o.Extra["blocks_applied_twice_after_a_failure_in_mid_block"] = orch.SumCounter(rs, "blocks_applied_twice_after_a_failure_in_mid_block")
 	o.Extra["blocks_applied_twice_after_a_failed_read_outside_the_transaction"] = orch.SumCounter(rs, "blocks_applied_twice_after_a_failed_read_outside_the_transaction")
+	o.Extra["statements_failed_in_snapshot_blocks"] = orch.UnionDistinct(rs, "statements_failed_in_snapshot_blocks")
 	o.Extra["blocks_applied_twice_after_a_failed_history_write"] = orch.SumCounter(rs, "blocks_applied_twice_after_a_failed_history_write")
 	o.Extra["blocks_retried_after_a_failed_dblock_fetch"] = orch.SumCounter(rs, "blocks_retried_after_a_failed_dblock_fetch")
 	o.Extra["api_requests_between_blocks"] = orch.SumCounter(rs, "api_requests_between_blocks")
